@@ -1,7 +1,15 @@
 (* Executable model of pysyncobj/tcp_connection.py (TcpConnection in the
-   CONNECTED / DISCONNECTED states): send, __trySendBuffer, __processSend,
-   __tryReadBuffer, __processRead, __processParseMessage, the dispatch in
-   __processConnection, __processConnectionTimeout, disconnect.
+   DISCONNECTED / CONNECTING / CONNECTED states): connect (returning True),
+   send, __trySendBuffer, __processSend, __tryReadBuffer, __processRead,
+   __processParseMessage, the dispatch in __processConnection (CONNECTING
+   branch included), __processConnectionTimeout, disconnect with an
+   onDisconnected callback that may re-enter connect().
+
+   Re-entrant reconnect: when `reconnect c` is set, the onDisconnected callback
+   calls connect() before disconnect() returns, so the code that runs after a
+   disconnect() inside a handler sees state CONNECTING, empty buffers and a
+   FRESH socket (harness: nothing to recv, SO_ERROR 0, empty write buffer so
+   send is not called).
 
    Oracles (inputs of the model, supplied by the harness from what the
    implementation saw): the payload bytes zlib.compress(pickle.dumps(m)) of
@@ -12,7 +20,7 @@ From PSO Require Import Base.PyBytes.
 Import ListNotations.
 Open Scope Z_scope.
 
-Inductive cstate := Disconnected | Connected.
+Inductive cstate := Disconnected | Connecting | Connected.
 
 (* result of the decode oracle *)
 Inductive dres := DOk (id : N) | DFail | DMiss.
@@ -27,42 +35,62 @@ Record conn := {
   rbuf : bytes;
   wbuf : bytes;
   last_read : Z;       (* time units chosen by the harness *)
-  timeout : Z
+  timeout : Z;
+  reconnect : bool     (* the onDisconnected callback calls connect() at once (TCPTransport does) *)
 }.
 
 Record outs := {
   accepted : bytes;       (* bytes the socket took during this event *)
   delivered : list N;     (* ids of the messages handed to onMessageReceived *)
   disc_calls : nat;       (* onDisconnected invocations *)
+  conn_calls : nat;       (* onConnected invocations *)
   miss : bool             (* the decode oracle was asked something the implementation never decoded *)
 }.
 
-Definition no_out : outs := {| accepted := []; delivered := []; disc_calls := 0; miss := false |}.
+Definition no_out : outs :=
+  {| accepted := []; delivered := []; disc_calls := 0; conn_calls := 0; miss := false |}.
 
 Definition out_app (a b : outs) : outs :=
   {| accepted := accepted a ++ accepted b;
      delivered := delivered a ++ delivered b;
      disc_calls := disc_calls a + disc_calls b;
+     conn_calls := conn_calls a + conn_calls b;
      miss := miss a || miss b |}.
 
-Definition set_st (c : conn) s := {| st := s; rbuf := rbuf c; wbuf := wbuf c; last_read := last_read c; timeout := timeout c |}.
-Definition set_rbuf (c : conn) b := {| st := st c; rbuf := b; wbuf := wbuf c; last_read := last_read c; timeout := timeout c |}.
-Definition set_wbuf (c : conn) b := {| st := st c; rbuf := rbuf c; wbuf := b; last_read := last_read c; timeout := timeout c |}.
-Definition set_last_read (c : conn) t := {| st := st c; rbuf := rbuf c; wbuf := wbuf c; last_read := t; timeout := timeout c |}.
+Definition set_st (c : conn) s := {| st := s; rbuf := rbuf c; wbuf := wbuf c; last_read := last_read c; timeout := timeout c; reconnect := reconnect c |}.
+Definition set_rbuf (c : conn) b := {| st := st c; rbuf := b; wbuf := wbuf c; last_read := last_read c; timeout := timeout c; reconnect := reconnect c |}.
+Definition set_wbuf (c : conn) b := {| st := st c; rbuf := rbuf c; wbuf := b; last_read := last_read c; timeout := timeout c; reconnect := reconnect c |}.
+Definition set_last_read (c : conn) t := {| st := st c; rbuf := rbuf c; wbuf := wbuf c; last_read := t; timeout := timeout c; reconnect := reconnect c |}.
 
-(* disconnect(): buffers cleared, callback only when not already disconnected *)
-Definition disconnect (c : conn) : conn * outs :=
-  let calls := match st c with Disconnected => 0%nat | Connected => 1%nat end in
-  ({| st := Disconnected; rbuf := []; wbuf := []; last_read := last_read c; timeout := timeout c |},
-   {| accepted := []; delivered := []; disc_calls := calls; miss := false |}).
+(* what disconnect() leaves when nothing reconnects *)
+Definition cleared (c : conn) : conn :=
+  {| st := Disconnected; rbuf := []; wbuf := []; last_read := last_read c; timeout := timeout c; reconnect := reconnect c |}.
+
+(* connect(host, port) returning True: fresh socket, both buffers empty,
+   lastReadTime := now, state CONNECTING *)
+Definition connect (now : Z) (c : conn) : conn :=
+  {| st := Connecting; rbuf := []; wbuf := []; last_read := now; timeout := timeout c; reconnect := reconnect c |}.
+
+Definition disc_out : outs :=
+  {| accepted := []; delivered := []; disc_calls := 1; conn_calls := 0; miss := false |}.
+Definition conn_out : outs :=
+  {| accepted := []; delivered := []; disc_calls := 0; conn_calls := 1; miss := false |}.
+
+(* disconnect(): buffers cleared, state DISCONNECTED, then the callback -- only
+   when not already disconnected; a reconnecting callback runs connect() inside it *)
+Definition disconnect (now : Z) (c : conn) : conn * outs :=
+  match st c with
+  | Disconnected => (cleared c, no_out)
+  | _ => (if reconnect c then connect now c else cleared c, disc_out)
+  end.
 
 (* __processConnectionTimeout *)
 Definition check_timeout (now : Z) (c : conn) : conn * outs :=
-  if now - last_read c >? timeout c then disconnect c else (c, no_out).
+  if now - last_read c >? timeout c then disconnect now c else (c, no_out).
 
 (* while self.__processSend(): pass -- one scripted socket result per call; an
    exhausted script behaves as EAGAIN.  The socket is not called on an empty buffer. *)
-Fixpoint send_loop (script : list sres) (c : conn) : conn * outs :=
+Fixpoint send_loop (now : Z) (script : list sres) (c : conn) : conn * outs :=
   match wbuf c with
   | [] => (c, no_out)
   | _ :: _ =>
@@ -72,34 +100,37 @@ Fixpoint send_loop (script : list sres) (c : conn) : conn * outs :=
       let k := Nat.max 1 (N.to_nat (N.min k (N.of_nat (length (wbuf c))))) in
       let took := firstn k (wbuf c) in
       let c' := set_wbuf c (skipn k (wbuf c)) in
-      let (c'', o) := send_loop rest c' in
-      (c'', out_app {| accepted := took; delivered := []; disc_calls := 0; miss := false |} o)
+      let (c'', o) := send_loop now rest c' in
+      (c'', out_app {| accepted := took; delivered := []; disc_calls := 0; conn_calls := 0; miss := false |} o)
     | SZero :: _ => (c, no_out)
     | SEagain :: _ => (c, no_out)
-    | SNeg :: _ => disconnect c
-    | SErr :: _ => disconnect c
+    | SNeg :: _ => disconnect now c
+    | SErr :: _ => disconnect now c
     end
   end.
 
-(* __trySendBuffer *)
+(* __trySendBuffer: the state test after the timeout check is `== DISCONNECTED`,
+   so the send loop also runs while CONNECTING (the socket exists); after a
+   timeout whose callback reconnected the write buffer is empty and the loop
+   does not touch the (fresh) socket *)
 Definition try_send (now : Z) (script : list sres) (c : conn) : conn * outs :=
   let (c1, o1) := check_timeout now c in
   match st c1 with
   | Disconnected => (c1, o1)
-  | Connected => let (c2, o2) := send_loop script c1 in (c2, out_app o1 o2)
+  | _ => let (c2, o2) := send_loop now script c1 in (c2, out_app o1 o2)
   end.
 
 (* while self.__processRead(): pass *)
-Fixpoint read_loop (script : list rres) (c : conn) : conn * outs :=
+Fixpoint read_loop (now : Z) (script : list rres) (c : conn) : conn * outs :=
   match script with
   | [] => (c, no_out)
   | REagain :: _ => (c, no_out)
-  | RErr :: _ => disconnect c
+  | RErr :: _ => disconnect now c
   | RChunk b soerr :: rest =>
-    if soerr then disconnect c
+    if soerr then disconnect now c
     else match b with
-         | [] => disconnect c
-         | _ => read_loop rest (set_rbuf c (rbuf c ++ b))
+         | [] => disconnect now c
+         | _ => read_loop now rest (set_rbuf c (rbuf c ++ b))
          end
   end.
 
@@ -110,84 +141,113 @@ Section WithDecoder.
      PARSE_* are the three ways it returns. *)
   Inductive pres := PNone | PMsg (id : N) | PDisc | PMiss.
 
-  Definition parse_one (c : conn) : conn * pres :=
+  Definition parse_one (now : Z) (c : conn) : conn * pres :=
     let b := rbuf c in
     if zlen b <? 4 then (c, PNone)
     else
       let l := unpack_i (pyslice b 0 4) in
-      if l <? 0 then (fst (disconnect c), PDisc)
+      if l <? 0 then (fst (disconnect now c), PDisc)
       else if zlen b - 4 <? l then (c, PNone)
       else
         let data := pyslice b 4 (4 + l) in
         match dec data with
         | DOk id => (set_rbuf c (pyslice_from b (4 + l)), PMsg id)
-        | DFail => (fst (disconnect c), PDisc)
+        | DFail => (fst (disconnect now c), PDisc)
         | DMiss => (c, PMiss)
         end.
 
   (* the while True loop of __processConnection; fuel bounds the number of
      frames parsed out of one buffer (every frame consumes >= 4 bytes) *)
-  Fixpoint parse_loop (fuel : nat) (c : conn) : conn * outs :=
+  Fixpoint parse_loop (now : Z) (fuel : nat) (c : conn) : conn * outs :=
     match fuel with
     | O => (c, no_out)
     | S fuel' =>
-      match parse_one c with
+      match parse_one now c with
       | (c', PNone) => (c', no_out)
       | (c', PMsg id) =>
-        let (c'', o) := parse_loop fuel' c' in
-        (c'', out_app {| accepted := []; delivered := [id]; disc_calls := 0; miss := false |} o)
+        let (c'', o) := parse_loop now fuel' c' in
+        (c'', out_app {| accepted := []; delivered := [id]; disc_calls := 0; conn_calls := 0; miss := false |} o)
       | (c', PDisc) =>
-        (c', snd (disconnect c))
+        (c', snd (disconnect now c))
       | (c', PMiss) =>
-        (c', {| accepted := []; delivered := []; disc_calls := 0; miss := true |})
+        (c', {| accepted := []; delivered := []; disc_calls := 0; conn_calls := 0; miss := true |})
       end
     end.
 
-  Definition parse_all (c : conn) : conn * outs := parse_loop (S (length (rbuf c))) c.
+  Definition parse_all (now : Z) (c : conn) : conn * outs := parse_loop now (S (length (rbuf c))) c.
 
   (* events *)
   Inductive event :=
   | ESend (now : Z) (payload : bytes) (script : list sres)
       (* conn.send(m): payload = zlib.compress(pickle.dumps(m)) *)
   | EPoll (now : Z) (rd wr er : bool) (soerr : bool) (sscript : list sres) (rscript : list rres)
-      (* __processConnection(fileno, mask) *)
-  | EDisconnect.
+      (* __processConnection(fileno, mask) with the fileno of the current socket *)
+  | EDisconnect (now : Z)
+      (* conn.disconnect() *)
+  | EConnect (now : Z).
+      (* conn.connect(host, port) returning True *)
 
   Definition frame (payload : bytes) : bytes := pack_i (zlen payload) ++ payload.
+
+  (* the part of __processConnection after the CONNECTING branch: write, read, parse *)
+  Definition poll_connected (now : Z) (rd wr : bool) (sscript : list sres) (rscript : list rres)
+             (c : conn) : conn * outs :=
+    let (c2, o2) := if wr then try_send now sscript c else (c, no_out) in
+    match st c2 with
+    | Disconnected => (c2, o2)
+    | Connecting =>
+      (* send failed and the callback reconnected: `state == DISCONNECTED` is
+         false, the handler goes on with the fresh socket, whose recv has
+         nothing (EAGAIN), on an empty read buffer *)
+      (c2, o2)
+    | Connected =>
+      if rd then
+        let (c3, o3) := read_loop now rscript c2 in
+        let c3 := set_last_read c3 now in
+        match st c3 with
+        | Disconnected => (c3, out_app o2 o3)
+        | _ =>
+          (* also reached in state CONNECTING when the read burst ended in a
+             disconnect whose callback reconnected: the buffer parsed is the
+             fresh connection's (empty) one *)
+          let (c4, o4) := parse_all now c3 in
+          (c4, out_app o2 (out_app o3 o4))
+        end
+      else (c2, o2)
+    end.
 
   Definition step (c : conn) (e : event) : conn * outs :=
     match e with
     | ESend now payload script =>
       try_send now script (set_wbuf c (wbuf c ++ frame payload))
-    | EDisconnect => disconnect c
+    | EDisconnect now => disconnect now c
+    | EConnect now => (connect now c, no_out)
     | EPoll now rd wr er soerr sscript rscript =>
       match st c with
       | Disconnected => (c, no_out)         (* descr != self.__fileno (None) *)
-      | Connected =>
-        if er then disconnect c
+      | _ =>
+        if er then disconnect now c
         else
+          let timed_out := now - last_read c >? timeout c in
           let (c1, o1) := check_timeout now c in
           match st c1 with
           | Disconnected => (c1, o1)
-          | Connected =>
-            if (rd || wr) && soerr then
-              let (c2, o2) := disconnect c1 in (c2, out_app o1 o2)
+          | _ =>
+            (* after a timeout whose callback reconnected, c1 is the fresh
+               CONNECTING connection and the SO_ERROR probe goes to its socket (0) *)
+            if (rd || wr) && soerr && negb timed_out then
+              let (c2, o2) := disconnect now c1 in (c2, out_app o1 o2)
             else
-              let (c2, o2) :=
-                if wr then try_send now sscript c1 else (c1, no_out) in
-              match st c2 with
-              | Disconnected => (c2, out_app o1 o2)
-              | Connected =>
-                if rd then
-                  let (c3, o3) := read_loop rscript c2 in
-                  let c3 := set_last_read c3 now in
-                  match st c3 with
-                  | Disconnected => (c3, out_app o1 (out_app o2 o3))
-                  | Connected =>
-                    let (c4, o4) := parse_all c3 in
-                    (c4, out_app o1 (out_app o2 (out_app o3 o4)))
-                  end
-                else (c2, out_app o1 o2)
+              match st c1 with
+              | Connecting =>
+                if rd || wr then
+                  ({| st := Connected; rbuf := rbuf c1; wbuf := wbuf c1; last_read := now;
+                      timeout := timeout c1; reconnect := reconnect c1 |},
+                   out_app o1 conn_out)
+                else (c1, o1)
+              | _ =>
+                let (c2, o2) := poll_connected now rd wr sscript rscript c1 in
+                (c2, out_app o1 o2)
               end
           end
       end
@@ -201,8 +261,8 @@ Section WithDecoder.
 
 End WithDecoder.
 
-Definition init_conn (now tmo : Z) : conn :=
-  {| st := Connected; rbuf := []; wbuf := []; last_read := now; timeout := tmo |}.
+Definition init_conn (now tmo : Z) (rc : bool) : conn :=
+  {| st := Connected; rbuf := []; wbuf := []; last_read := now; timeout := tmo; reconnect := rc |}.
 
 (* ---- decode oracle as a finite table, for evaluation ---- *)
 Fixpoint bytes_eqb (a b : bytes) : bool :=
@@ -220,11 +280,11 @@ Fixpoint table_dec (tbl : list (bytes * option N)) (d : bytes) : dres :=
   end.
 
 (* canonical observation of one event, as numbers:
-   [state; |rbuf|; |wbuf|; disc_calls; miss] ++ [|accepted|] ++ accepted ++ [|delivered|] ++ delivered *)
+   [state; |rbuf|; |wbuf|; disc_calls; conn_calls; miss] ++ [|accepted|] ++ accepted ++ [|delivered|] ++ delivered *)
 Definition obs (c : conn) (o : outs) : list N :=
-  [match st c with Disconnected => 0 | Connected => 2 end;
+  [match st c with Disconnected => 0 | Connecting => 1 | Connected => 2 end;
    N.of_nat (length (rbuf c)); N.of_nat (length (wbuf c));
-   N.of_nat (disc_calls o); if miss o then 1 else 0]%N
+   N.of_nat (disc_calls o); N.of_nat (conn_calls o); if miss o then 1 else 0]%N
   ++ N.of_nat (length (accepted o)) :: accepted o
   ++ N.of_nat (length (delivered o)) :: delivered o.
 
@@ -249,6 +309,6 @@ Fixpoint first_diff (i : N) (a b : list (list N)) : option N :=
   | _, _ => Some i
   end.
 
-Definition check_case (tbl : list (bytes * option N)) (now tmo : Z) (es : list event)
+Definition check_case (tbl : list (bytes * option N)) (now tmo : Z) (rc : bool) (es : list event)
            (expected : list (list N)) : option N :=
-  first_diff 0%N (run_obs (table_dec tbl) (init_conn now tmo) es) expected.
+  first_diff 0%N (run_obs (table_dec tbl) (init_conn now tmo rc) es) expected.
